@@ -2,29 +2,39 @@ import Cellml.Model.Roles
 
 /-! # C10: what a variable's definition denotes at the initial state
 
-    `Den M i q`: item `i` (a variable or an expression) has the value `q` when states are at their initial values,
-    the free variable is 0, a derivative stands for the right-hand side of its ODE and every other variable for its
-    definition. An inductive relation: no fuel, no memo, no evaluation order — the specification `getValue` is measured
-    against. Core Lean only. -/
+    `Den fn M i q`: item `i` (a variable or an expression) has the value `q` when states are at their initial values,
+    the free variable is 0, a derivative stands for the right-hand side of its ODE, every other variable for its
+    definition, and an uninterpreted application `opq id args` for `fn id vals` where `vals` are the values of its
+    argument places (`fn`: the interpretation, `Model/Roles.lean`; every theorem is for ALL interpretations). An
+    inductive relation: no fuel, no memo, no evaluation order — the specification `getValue` is measured against.
+    Core Lean only. -/
 
 namespace Model
 
 inductive Item | v (n : Nat) | e (x : Expr)
 
-inductive Den (M : RModel) : Item → Rat → Prop
-  | state {v q} : isState M v = true → initOf M.st v = some q → Den M (.v v) q
-  | defn {v r q} : isState M v = false → varRhs M v = some r → Den M (.e r) q → Den M (.v v) q
-  | free {v} : isState M v = false → varRhs M v = none → freeVar M = some v → Den M (.v v) 0
-  | num (q) : Den M (.e (.num q)) q
-  | var {v q} : Den M (.v v) q → Den M (.e (.var v)) q
-  | deriv {s t r q} : odeRhs M s t = some r → Den M (.e r) q → Den M (.e (.deriv s t)) q
-  | bin {op a b p q r} : Den M (.e a) p → Den M (.e b) q → applyBin op p q = some r → Den M (.e (.bin op a b)) r
-  | pow {a n p r} : Den M (.e a) p → powInt p n = some r → Den M (.e (.pow a n)) r
+inductive Den (fn : Interp) (M : RModel) : Item → Rat → Prop
+  | state {v q} : isState M v = true → initOf M.st v = some q → Den fn M (.v v) q
+  | defn {v r q} : isState M v = false → varRhs M v = some r → Den fn M (.e r) q → Den fn M (.v v) q
+  | free {v} : isState M v = false → varRhs M v = none → freeVar M = some v → Den fn M (.v v) 0
+  | num (q) : Den fn M (.e (.num q)) q
+  | var {v q} : Den fn M (.v v) q → Den fn M (.e (.var v)) q
+  | deriv {s t r q} : odeRhs M s t = some r → Den fn M (.e r) q → Den fn M (.e (.deriv s t)) q
+  | bin {op a b p q r} : Den fn M (.e a) p → Den fn M (.e b) q → applyBin op p q = some r → Den fn M (.e (.bin op a b)) r
+  | pow {a n p r} : Den fn M (.e a) p → powInt p n = some r → Den fn M (.e (.pow a n)) r
+  /-- an opaque term denotes `fn id vals` when its argument places denote `vals` (one value per place) -/
+  | opq {id} {args : List Expr} {vals : List Rat} {r} : vals.length = args.length →
+      (∀ (i : Nat) (a : Expr) (p : Rat), args[i]? = some a → vals[i]? = some p → Den fn M (.e a) p) →
+      fn id vals = some r → Den fn M (.e (.opq id args)) r
 
-variable {M : RModel}
+variable {fn : Interp} {M : RModel}
+
+/-- the expressions of a list denote the values of a list, place by place -/
+def Dens (fn : Interp) (M : RModel) (args : List Expr) (vals : List Rat) : Prop :=
+  vals.length = args.length ∧ ∀ (i : Nat) (a : Expr) (p : Rat), args[i]? = some a → vals[i]? = some p → Den fn M (.e a) p
 
 /-- a definition denotes at most one value -/
-theorem den_unique {i : Item} {q q' : Rat} (h : Den M i q) (h' : Den M i q') : q = q' := by
+theorem den_unique {i : Item} {q q' : Rat} (h : Den fn M i q) (h' : Den fn M i q') : q = q' := by
   induction h generalizing q' with
   | state hs hi =>
     cases h' with
@@ -57,31 +67,82 @@ theorem den_unique {i : Item} {q q' : Rat} (h : Den M i q) (h' : Den M i q') : q
     | pow ha' hp' =>
       have := ih ha'; subst this
       rw [hp] at hp'; exact Option.some.inj hp'
+  | @opq _ _ vals _ hl _ hf ih =>
+    cases h' with
+    | @opq _ _ vals' _ hl' hd' hf' =>
+      have : vals = vals' := by
+        apply List.ext_getElem (by rw [hl, hl'])
+        intro i h1 h2
+        have ha : i < _ := hl ▸ h1
+        exact ih i _ _ (List.getElem?_eq_getElem ha) (List.getElem?_eq_getElem h1)
+          (hd' i _ _ (List.getElem?_eq_getElem ha) (List.getElem?_eq_getElem h2))
+      subst this
+      rw [hf] at hf'; exact Option.some.inj hf'
 
 -- ------------------------------------------------------------------------------------------------ inversion
-theorem den_var_iff {v : Nat} {q : Rat} : Den M (.e (.var v)) q ↔ Den M (.v v) q :=
+theorem den_var_iff {v : Nat} {q : Rat} : Den fn M (.e (.var v)) q ↔ Den fn M (.v v) q :=
   ⟨fun h => by cases h with | var h => exact h, Den.var⟩
 
 theorem den_deriv_iff {s t : Nat} {r : Expr} (ho : odeRhs M s t = some r) {q : Rat} :
-    Den M (.e (.deriv s t)) q ↔ Den M (.e r) q :=
+    Den fn M (.e (.deriv s t)) q ↔ Den fn M (.e r) q :=
   ⟨fun h => by cases h with | deriv ho' h => rw [ho] at ho'; cases ho'; exact h, Den.deriv ho⟩
 
-theorem not_den_deriv {s t : Nat} (ho : odeRhs M s t = none) (q : Rat) : ¬ Den M (.e (.deriv s t)) q := by
+theorem not_den_deriv {s t : Nat} (ho : odeRhs M s t = none) (q : Rat) : ¬ Den fn M (.e (.deriv s t)) q := by
   intro h; cases h with | deriv ho' _ => rw [ho] at ho'; cases ho'
 
 theorem den_bin_iff {op : BinOp} {a b : Expr} {r : Rat} :
-    Den M (.e (.bin op a b)) r ↔ ∃ p q, Den M (.e a) p ∧ Den M (.e b) q ∧ applyBin op p q = some r :=
+    Den fn M (.e (.bin op a b)) r ↔ ∃ p q, Den fn M (.e a) p ∧ Den fn M (.e b) q ∧ applyBin op p q = some r :=
   ⟨fun h => by cases h with | bin ha hb hab => exact ⟨_, _, ha, hb, hab⟩,
    fun ⟨_, _, ha, hb, hab⟩ => Den.bin ha hb hab⟩
 
 theorem den_pow_iff {a : Expr} {n : Int} {r : Rat} :
-    Den M (.e (.pow a n)) r ↔ ∃ p, Den M (.e a) p ∧ powInt p n = some r :=
+    Den fn M (.e (.pow a n)) r ↔ ∃ p, Den fn M (.e a) p ∧ powInt p n = some r :=
   ⟨fun h => by cases h with | pow ha hp => exact ⟨_, ha, hp⟩, fun ⟨_, ha, hp⟩ => Den.pow ha hp⟩
 
-theorem not_den_opq (l : List Node) (q : Rat) : ¬ Den M (.e (.opq l)) q := by
-  intro h; cases h
+theorem den_opq_iff {id : String} {args : List Expr} {r : Rat} :
+    Den fn M (.e (.opq id args)) r ↔ ∃ vals, Dens fn M args vals ∧ fn id vals = some r :=
+  ⟨fun h => by cases h with | opq hl hd hf => exact ⟨_, ⟨hl, hd⟩, hf⟩, fun ⟨_, ⟨hl, hd⟩, hf⟩ => Den.opq hl hd hf⟩
 
-theorem den_num_iff {p q : Rat} : Den M (.e (.num p)) q ↔ q = p :=
+theorem dens_nil_iff {vals : List Rat} : Dens fn M [] vals ↔ vals = [] :=
+  ⟨fun h => List.eq_nil_of_length_eq_zero h.1, fun h => by subst h; exact ⟨rfl, fun i a p ha => by simp at ha⟩⟩
+
+theorem dens_cons_iff {a : Expr} {as : List Expr} {vals : List Rat} :
+    Dens fn M (a :: as) vals ↔ ∃ p ps, vals = p :: ps ∧ Den fn M (.e a) p ∧ Dens fn M as ps := by
+  constructor
+  · rintro ⟨hl, hd⟩
+    cases vals with
+    | nil => simp at hl
+    | cons p ps =>
+      refine ⟨p, ps, rfl, hd 0 a p rfl rfl, by simpa using hl, fun i x y hx hy => hd (i + 1) x y ?_ ?_⟩
+      · simpa using hx
+      · simpa using hy
+  · rintro ⟨p, ps, rfl, h1, hl, hd⟩
+    refine ⟨by simp [hl], fun i x y hx hy => ?_⟩
+    cases i with
+    | zero => simp at hx hy; subst hx; subst hy; exact h1
+    | succ i => exact hd i x y (by simpa using hx) (by simpa using hy)
+
+theorem Dens.cons {a : Expr} {as : List Expr} {p : Rat} {ps : List Rat} (h : Den fn M (.e a) p) (hs : Dens fn M as ps) :
+    Dens fn M (a :: as) (p :: ps) := dens_cons_iff.mpr ⟨p, ps, rfl, h, hs⟩
+
+theorem Dens.nil : Dens fn M [] [] := dens_nil_iff.mpr rfl
+
+/-- every place of a list that denotes values denotes one -/
+theorem Dens.mem {args : List Expr} {vals : List Rat} (h : Dens fn M args vals) {a : Expr} (ha : a ∈ args) :
+    ∃ p, Den fn M (.e a) p := by
+  obtain ⟨i, hi, rfl⟩ := List.mem_iff_getElem.mp ha
+  have hv : i < vals.length := h.1 ▸ hi
+  exact ⟨vals[i], h.2 i _ _ (List.getElem?_eq_getElem hi) (List.getElem?_eq_getElem hv)⟩
+
+theorem dens_unique {args : List Expr} {vals vals' : List Rat} (h : Dens fn M args vals) (h' : Dens fn M args vals') :
+    vals = vals' := by
+  apply List.ext_getElem (by rw [h.1, h'.1])
+  intro i h1 h2
+  have ha : i < args.length := h.1 ▸ h1
+  exact den_unique (h.2 i _ _ (List.getElem?_eq_getElem ha) (List.getElem?_eq_getElem h1))
+    (h'.2 i _ _ (List.getElem?_eq_getElem ha) (List.getElem?_eq_getElem h2))
+
+theorem den_num_iff {p q : Rat} : Den fn M (.e (.num p)) q ↔ q = p :=
   ⟨fun h => by cases h; rfl, fun h => by subst h; exact Den.num _⟩
 
 end Model
